@@ -99,7 +99,8 @@ Definition clean_rs (r0 : rs) : rs :=
 Definition rm_quiet (s s' : rs) : Prop :=
   RInv s -> RInv s' /\ r_res s' = r_res s /\ (forall m, usage (r_pools s') m = usage (r_pools s) m).
 
-Definition keeps_res (f : dev -> dev) : Prop := forall x, d_reserved (f x) = d_reserved x /\ d_req (f x) = d_req x.
+(** device transformers other than the paired ones below leave the reservation fields and the list of generated parts alone *)
+Definition keeps_res (f : dev -> dev) : Prop := forall x, d_reserved (f x) = d_reserved x /\ d_req (f x) = d_req x /\ d_made (f x) = d_made x.
 
 (** world-level steps: what one primitive action of the floor model does to the whole world *)
 (** what a part waiting to be handed over looks like from outside, and what is kept while it is being offered downstream:
@@ -121,7 +122,10 @@ Inductive wstep (n : smode) (nw : Z) : fw -> fw -> Prop :=
 | ws_emit w c : wstep n nw w (emitf w c)
 | ws_failf w e : wstep n nw w (failf w e)
 | ws_log w l : wstep n nw w (w <| f_cblog ::= cons l |>)
-| ws_nextid w z : wstep n nw w (w <| f_next_id := z |>)
+| ws_nextid w z : f_next_id w <= z -> wstep n nw w (w <| f_next_id := z |>)
+| ws_generate w d :
+    d_out (getd w d) = None -> d_kind (getd w d) = KSource ->
+    wstep n nw w (updd (fst (generate w d)) d (t_generated (snd (generate w d))))
 | ws_maint w mid f : wstep n nw w (maint_call w mid f)
 | ws_rm_quiet w f : rm_quiet (clean_rs (f_rm w)) (f (clean_rs (f_rm w))) -> wstep n nw w (rm_call w f)
 | ws_rm_raw w g :
@@ -153,6 +157,11 @@ Inductive RD (nw : Z) : fw -> fw -> Prop :=
 Lemma rm_call_devs w f : f_devs (rm_call w f) = f_devs w /\ f_groups (rm_call w f) = f_groups w.
 Proof. unfold rm_call. cbv zeta. destruct (_ =? 0); [auto|]. unfold failf. destruct (_ =? 0); auto. Qed.
 
+Lemma generate_devs w d : f_devs (fst (generate w d)) = f_devs w /\ f_groups (fst (generate w d)) = f_groups w.
+Proof. unfold generate. destruct (d_gen_batch (getd w d) <=? 0); cbn; auto. Qed.
+Lemma getd_other_fields0 w w' d : f_devs w' = f_devs w -> getd w' d = getd w d.
+Proof. unfold getd. intros ->. reflexivity. Qed.
+
 Lemma RD_one nw a b : dstep nw a b -> RD nw a b.
 Proof. intro H. econstructor; [exact H|constructor]. Qed.
 
@@ -164,6 +173,9 @@ Proof.
   - apply RD_one. apply ds_other; unfold failf; destruct (f_err w =? 0); reflexivity.
   - apply RD_one. apply ds_other; reflexivity.
   - apply RD_one. apply ds_other; reflexivity.
+  - eapply RD_step; [apply ds_other; apply generate_devs|].
+    apply RD_one. apply (ds_dev nw _ d _ _ (dp_generated nw (snd (generate w d)))).
+    rewrite (getd_other_fields0 w _ d (proj1 (generate_devs w d))). split; assumption.
   - apply RD_one. apply ds_other; reflexivity.
   - apply RD_one. apply ds_other; apply rm_call_devs.
   - apply RD_one. apply ds_other; reflexivity.
@@ -383,7 +395,7 @@ Ltac kr :=
          | |- context[if ?b then _ else _] => destruct b
          | |- context[match ?o with _ => _ end] => destruct o
          end;
-  split; reflexivity.
+  repeat split; reflexivity.
 
 Section Steps.
 Variable nw : Z.
@@ -406,8 +418,8 @@ Lemma R_emit w c : R w (emitf w c).
 Proof. apply R_one, ws_emit. Qed.
 Lemma R_fail w e : R w (failf w e).
 Proof. apply R_one, ws_failf. Qed.
-Lemma R_nextid w z : R w (w <| f_next_id := z |>).
-Proof. apply R_one, ws_nextid. Qed.
+Lemma R_nextid w z : f_next_id w <= z -> R w (w <| f_next_id := z |>).
+Proof. intro H. apply R_one, ws_nextid, H. Qed.
 Lemma R_data w l s p : R w (data w l s p).
 Proof. apply R_emit. Qed.
 
@@ -556,8 +568,6 @@ Qed.
 Lemma R_run_cbops d slot isf lost ops : forall w, R w (run_cbops nw d slot isf lost ops w).
 Proof. unfold run_cbops. apply R_fold. intros. apply R_run_cbop. Qed.
 
-Lemma generate_devs w d : f_devs (fst (generate w d)) = f_devs w /\ f_groups (fst (generate w d)) = f_groups w.
-Proof. unfold generate. destruct (d_gen_batch (getd w d) <=? 0); cbn; auto. Qed.
 
 Lemma generate_nextid w d : exists z, fst (generate w d) = w <| f_next_id := z |>.
 Proof. unfold generate. destruct (d_gen_batch (getd w d) <=? 0); cbn; eexists; reflexivity. Qed.
@@ -568,10 +578,9 @@ Proof.
   try (destruct (negb (operational x)); [Rt|]; destruct (d_part x) as [it|] eqn:P; [|Rt]; destruct (d_out x) eqn:O; [Rt|]).
   3:{ (* source *)
       destruct (d_out x) eqn:O; [apply R_sched_pass|].
-      destruct (generate w d) as [w' it] eqn:G. pose proof (generate_devs w d) as [GD GG]. rewrite G in GD, GG. cbn in GD, GG.
-      apply (R_trans w w'); [pose proof (generate_nextid w d) as [z Hz]; rewrite G in Hz; cbn in Hz; rewrite Hz; apply R_nextid|].
-      step_dev w' d (t_generated it) (dp_generated nw it);
-        [cbn beta; rewrite (getd_other_fields w w' d GD); split; assumption|apply R_sched_pass]. }
+      apply (R_trans w (updd (fst (generate w d)) d (t_generated (snd (generate w d)))));
+        [apply R_one, ws_generate; [exact O|exact K]|].
+      destruct (generate w d) as [w' it]. cbn [fst snd]. apply R_sched_pass. }
   - (* handler *)
     step_dev w d (t_finish it) (dp_finish nw it); [cbn beta; fold x; rewrite K; repeat split; auto|apply R_sched_pass].
   - (* processor *)
@@ -623,7 +632,7 @@ Proof.
       * step_dev w d (t_batch_more rest b (ps ++ [p])) (dp_batch_more nw rest b ps p size);
           [cbn beta; fold x; repeat split; auto; exists it; auto|apply IH; apply KP; reflexivity].
     + set (w1 := w <| f_next_id := f_next_id w + 1 |>).
-      apply (R_trans w w1); [apply R_nextid|].
+      apply (R_trans w w1); [apply R_nextid; cbn; lia|].
       destruct (Z.leb_spec size (Z.of_nat (length ([] ++ [p])))).
       * step_dev w1 d (t_batch_full rest (mkPart (f_next_id w + 1) 0 0 [] []) ([] ++ [p])) (dp_batch_full nw rest (mkPart (f_next_id w + 1) 0 0 [] []) [] p size);
           [cbn beta; change (getd w1 d) with x; repeat split; auto; try (exists it; auto); try (right; split; [reflexivity|exact IP])|].
